@@ -15,20 +15,53 @@ claim('C03',
       TB + "mpz layer of C03 (mpz_add ... mpz_swap) is covered only as far as the mpz units listed in the evidence are green; "
       "x86 add/sub_err asm is out of reach.")
 
+claim('C10',
+      "Unbounded proof of the eight mpn logic functions and mpn_com (pointwise at an arbitrary ghost limb, every permitted overlap) and of "
+      "mpn_scan0/scan1 (first 0/1 bit at or after the start, all earlier bits have the other value, at a ghost bit position).",
+      TB + "NOT decided: the value returned by mpn_popcount/mpn_hamdist (SWAR adder tree: SAT time-out; only their memory safety, frame and "
+      "termination are proved) and the whole mpz bitwise layer (mpz_and/ior/xor/com/setbit/... two's-complement view): no unit yet.")
+claim('C11',
+      "Full-domain proofs (loop-free code, all 2^64 limb values, all sizes and allocations) that mpz_cmp_ui/_si, mpz_cmpabs_ui, the eight "
+      "mpz_fits_*_p, mpz_get_ui/si/ux/sx and mpz_set_ui/si/ux/sx agree with exact 128-bit arithmetic (predicates true exactly on the "
+      "representable range); mpz_cmp/mpz_cmpabs/mpn_cmp: sign decided by sizes, else by the highest differing limb (loop closed by invariant).",
+      TB + "Four units are proved under two's-complement wrap-around of '-LONG_MIN' (signed-overflow check off, listed in evidence). "
+      "NOT covered: every double conversion (mpz_get_d, mpz_set_d, mpz_cmp_d, mpq_get_d, mpf_get_d), mpq_cmp*, mpq_equal, mpf_cmp*, mpz_sgn (a macro).")
+claim('C12',
+      "Unbounded limb-exact proofs of mpq_inv (incl. dest==src pointer swap, sign moved to the numerator, DIVIDE_BY_ZERO exactly for 0), "
+      "mpq_neg, mpq_abs, mpq_set, mpq_set_z, mpq_set_ui/si, mpq_set_num/den, mpq_get_num/den, mpq_swap: parts copied limb for limb, "
+      "denominator positive, both parts well-formed in distinct blocks - hence canonical form is preserved.",
+      TB + "NOT covered: mpq_add/sub/mul/div/canonicalize (gcd/divexact/mul glue), mpq_mul_2exp/div_2exp, mpq_set_d/set_f. _mpz_realloc is used "
+      "by contract (proved in unit mpz_realloc_int against the allocator model).")
+claim('C04',
+      "For every function under contract: the representation invariant (allocation >= 1, |size| <= allocation, block of exactly ALLOC limbs, no "
+      "leading zero limb at a ghost position) is a proved post-condition from ANY well-formed pre-state with ANY allocation (inductive over call "
+      "histories); DFCC frame obligations prove only owned blocks are written; CBMC pointer/bounds checks on every access; _mpz_realloc passes the "
+      "exact current size to the reallocate function and clears a value that no longer fits (allocator model installed through the public pointers).",
+      TB + "Covers only the functions listed in the evidence (mpn kernels, mpz_add/sub/neg/abs/set/swap, set/get/cmp/fits, mpq copy functions, "
+      "_mpz_realloc). 'Every sequence of API calls' is covered inductively for these functions only; leak-freedom on clear and the printf/scanf/"
+      "string layers are not covered.", cat='proof')
+claim('C05',
+      "Every identification of output and input arguments that the manual permits is a separate symbolic branch of each unit's harness (mpz: "
+      "w==u, w==v, u==v, all equal; mpq dest==src; mpn: identical pointers, and partial overlap in the permitted direction for copyi/copyd/"
+      "lshift/rshift), and the same limb-exact post-condition, phrased over pre-state snapshots, is proved in each; operands that are not "
+      "outputs are proved unmodified (frame + explicit 'source unchanged' obligations).",
+      TB + "Only for functions under contract (list in evidence); mpf functions and the division/gcd/multiplication families have no unit.")
+claim('C15',
+      "Frame-derived: for every function under contract DFCC proves, for all inputs, that it writes nothing but argument-reachable blocks and "
+      "ghost variables - in particular no static-storage object, so two threads on distinct destinations touch disjoint memory. Supporting static "
+      "fact: all 506 library sources are recompiled and the set of symbols in writable sections must equal the committed baseline (a new static "
+      "cache or lazily initialised table is reported).",
+      TB + "Schedules are not explored: race-freedom is derived from frames, not observed. Writes to an EXISTING writable table from a function "
+      "that is not under contract are not detected.", cat='other', technique='contract frames (DFCC assigns clauses) + writable-symbol baseline (nm)')
+
 for p, why in (
     ('C01', 'not yet implemented in this session (planned: mul_1/addmul_1/submul_1 L-proofs)'),
     ('C02', 'not yet implemented in this session'),
-    ('C04', 'not yet implemented in this session'),
-    ('C05', 'not yet implemented in this session'),
     ('C06', 'not yet implemented in this session'),
     ('C07', 'not yet implemented in this session'),
     ('C08', 'not yet implemented in this session'),
     ('C09', 'not yet implemented in this session'),
-    ('C10', 'not yet implemented in this session'),
-    ('C11', 'not yet implemented in this session'),
-    ('C12', 'not yet implemented in this session'),
     ('C13', 'not yet implemented in this session'),
-    ('C15', 'not yet implemented in this session'),
     ('C17', 'not yet implemented in this session'),
     ('C18', 'not yet implemented in this session'),
     ('C19', 'not yet implemented in this session'),
